@@ -188,13 +188,17 @@ fn encode<'t, T>(
                 (_, Literal(literal)) => {
                     // TODO: Only encode changes to casing flags.
                     // TODO: Should Unicode support also be toggled by casing flags?
+                    // Scope the casing flag to the literal. An unscoped flag remains in effect for
+                    // any tokens that follow the literal, such as character classes, which must
+                    // always be case sensitive.
                     if literal.is_case_insensitive() {
-                        pattern.push_str("(?i)");
+                        pattern.push_str("(?i:");
                     }
                     else {
-                        pattern.push_str("(?-i)");
+                        pattern.push_str("(?-i:");
                     }
                     pattern.push_str(&literal.text().escaped());
+                    pattern.push(')');
                 },
                 (_, Separator(_)) => pattern.push_str(sepexpr!("{0}")),
                 (_, Class(class)) => {
